@@ -18,20 +18,48 @@ NonSquareMatrix, never a panic or a hang, `acc` cases must succeed, eigenvector 
   `sym` requests (small symmetric integer matrices) are judged by the same accuracy oracle when the reference
   computation finds them inside the quantifier (then also a NoConvergence is a failure), otherwise like `term`.
   termination half (`term`): returning at all (Ok or Err) is the property; nothing numeric is required.
+
+  Hardening halves (the statement says "every real square matrix", the symmetric case only bounds λ more tightly):
+  `nsym` (exact S D S⁻¹ from integer data) and `gen` (triangular, Markov, small integer matrices), n ≤ 8: the
+    reference is independent of any iteration — the characteristic polynomial exactly (Faddeev–LeVerrier over the
+    rationals, from the bit patterns); a rigorous upper bound R on its root radius (seven Graeffe root-squarings in exact
+    integers + Fujiwara's bound: at most 2.2 % above the radius); Newton from ±R on the exact polynomial to a real root
+    x with |x| ≥ R/1.03; exact deflation by (μ − x) and the same radius bound on the quotient, which bounds |λ₂|;
+    right and left eigenvectors as null vectors (complete pivoting, binary64).  A case is
+    judged iff such a root exists, the bound on |λ₂| is ≤ ½|λ₁|, the component of the all-ones vector along the dominant
+    eigenvector (in the eigenbasis: |uᵀ1| ‖v₁‖ / (|uᵀv₁| √n)) is ≥ 0.25, the eigenvalue's condition number
+    ‖u‖‖v₁‖/|uᵀv₁| is ≤ 10³ and the tolerance is ≥ 100 n u (‖A‖_F/|λ₁|)² (`noise_floor`).  Judged: an eigenpair is returned; largest component exactly 1; the statement's residual
+    bound ‖Av − λv‖ ≤ C√tol|λ|‖v‖ in exact rationals; |λ − λ₁| ≤ C·√tol·|λ₁| (the statement bounds λ by C·tol only in the
+    symmetric case; a residual of C√tol moves a simple eigenvalue by at most its condition number times that, and the
+    calibration runs stay below 0.002 of this bound).  A method that iterates with the transpose returns the dominant LEFT
+    eigenvector: right λ, residual of order 1.
+  `accbig` (symmetric, n = 9..40): residual clause as above; the eigenvalue clause without any eigen-solver, by exact
+    inertia counts (Sylvester; leading principal minors by fraction-free elimination on the integer matrix behind the bit
+    patterns): exactly one eigenvalue in [λ − δ, λ + δ], δ = C·tol·|λ| + 10⁻¹³|λ|, none beyond it, and every other one
+    of modulus < 0.6|λ| (the generator guarantees gap ≤ 0.49 and cosine ≥ 0.3).
+  `nsymbig` (S D S⁻¹, n = 9..40): no reference: eigenpair returned, largest component 1, residual clause (the
+    generator guarantees the hypothesis by construction).
 """
 import math, struct
 from fractions import Fraction
 
-RULE = ("accuracy half: symmetric Q D Q^T (Q = random Givens products, exact symmetrisation), n = 1..8, |l2/l1| <= 0.49, "
-        "both signs of l1, magnitudes 2^-20..2^20, tolerances 1e-4..1e-12 (fixed decades and log-uniform), start vector "
+RULE = ("accuracy half: symmetric Q D Q^T (Q = random Givens products, exact symmetrisation), n = 1..8 and every n = 9..40, |l2/l1| <= 0.49, "
+        "both signs of l1, magnitudes 2^-400..2^400, tolerances 1e-4..1e-12 (fixed decades and log-uniform), start vector "
         "at cosine >= 0.3 to the dominant eigenvector; symmetric integer matrices (all 2x2 with entries -4..4 in the thorough "
-        "tier, random n = 2..4 with entries up to +-9) judged for accuracy when inside the quantifier; termination half: zero, nilpotent, +-lambda pairs, rotation "
-        "blocks, NaN/inf entries, zero row sums, random non-symmetric, n = 1..5, tolerances incl. 0, negative, NaN; "
-        "shape half: all non-square/empty shapes 0..4 x 0..4; non-trivial = the model answers ok (an eigenpair was "
+        "tier, random n = 2..4 with entries up to +-9) judged for accuracy when inside the quantifier; non-symmetric: exact S D S^-1 from "
+        "integer shears (n = 2..8 and every n = 9..40, gap <= 0.485, magnitudes 2^-300..2^300), triangular, column- and row-stochastic "
+        "Markov matrices with dyadic entries, small integer matrices (all 2x2 over -3..3 in the thorough tier) -- residual clause in exact "
+        "rationals, reference = exact characteristic polynomial + Graeffe root-radius bounds; termination half: zero, nilpotent, +-lambda pairs, rotation "
+        "blocks, NaN/inf entries, zero row sums, random non-symmetric, n = 1..12, tolerances incl. 0, negative, NaN, subnormal, 1e-17..1e300, +-inf; "
+        "shape half: all non-square/empty shapes 0..4 x 0..4 + every ragged row-length tuple 0..3 over 2 and 3 rows; every request through every "
+        "accepted container type (Vec<Vec<f64>>, &Vec<Vec<f64|f32|i32>>, &Arr2D<f64|f32|i32>); non-trivial = the model answers ok (an eigenpair was "
         "returned) or runs the loop to its cap; distinct = distinct request lines")
 
 C = 8
 ONE = 0x3FF0000000000000
+# requests that run into the iteration cap cost ~0.05 s in the real code and ~0.5 s in the model: split the batch over
+# the cores from 100 requests on
+CHUNK_MIN = 100
 
 
 def f_of_bits(b):
@@ -94,7 +122,11 @@ def jacobi(a, n):
 def reference(abits, n):
     """(λ₁, |λ₂|/|λ₁|, cosine of the all-ones vector to the dominant eigenvector) of the matrix passed"""
     a = [[f_of_bits(abits[i * n + j]) for j in range(n)] for i in range(n)]
+    # exact normalisation by a power of two: the squares inside `jacobi` stay in range for entries of any magnitude
+    e = math.frexp(max((abs(x) for row in a for x in row), default=0.0))[1]
+    a = [[math.ldexp(x, -e) for x in row] for row in a]
     ev, vec = jacobi(a, n)
+    ev = [math.ldexp(x, e) for x in ev]
     order = sorted(range(n), key=lambda k: -abs(ev[k]))
     k1 = order[0]
     l1 = ev[k1]
@@ -138,6 +170,387 @@ def first_pass(abits, n, tol, lam):
     return None
 
 
+# ------------------------------------------------------------------ reference for non-symmetric matrices (n <= 8)
+
+def charpoly(A, n):
+    """exact integer coefficients [1, c1, …, cn] of det(μI − A) for an integer matrix A (Faddeev–LeVerrier; the
+    division by k is exact)"""
+    M = [[0] * n for _ in range(n)]
+    c = [1]
+    for k in range(1, n + 1):
+        # M <- A M + c_{k-1} I ;  c_k = −tr(A M)/k
+        AM = [[sum(A[i][t] * M[t][j] for t in range(n)) for j in range(n)] for i in range(n)]
+        M = [[AM[i][j] + (c[k - 1] if i == j else 0) for j in range(n)] for i in range(n)]
+        tr = sum(sum(A[i][t] * M[t][i] for t in range(n)) for i in range(n))
+        assert tr % k == 0
+        c.append(-tr // k)
+    return c
+
+
+def ilog2(x):
+    """log2 of a positive integer, to about 1e-15"""
+    bl = x.bit_length()
+    if bl <= 60:
+        return math.log2(x)
+    return (bl - 60) + math.log2(x >> (bl - 60))
+
+
+def root_radius_upper(c, k=7):
+    """a rigorous upper bound on the largest modulus of a root of the polynomial with exact rational coefficients
+    c = [c0, …, cn] (c0 ≠ 0 leading), at most (2n)^(1/2^k) (2.2 % for k = 7, n = 8) above it: k Graeffe root-squaring
+    steps in exact integer arithmetic, then Fujiwara's bound 2·max_m |a_m/a_0|^(1/m) (never below the root radius,
+    never more than 2n times it) on the roots' 2^k-th powers."""
+    n = len(c) - 1
+    if n == 0:
+        return 0.0
+    c = [Fraction(x) for x in c]
+    den = 1
+    for x in c:
+        den = den * x.denominator // math.gcd(den, x.denominator)
+    a = [int(x * den) for x in c]
+    for _ in range(k):
+        b = []
+        for m in range(n + 1):
+            t = a[m] * a[m]
+            i = 1
+            while m - i >= 0 and m + i <= n:
+                t += (2 if i % 2 == 0 else -2) * a[m - i] * a[m + i]
+                i += 1
+            b.append(t if m % 2 == 0 else -t)
+        g = 0
+        for x in b:
+            g = math.gcd(g, x)
+        a = [x // g for x in b] if g > 1 else b
+    l0 = ilog2(abs(a[0]))
+    best = None
+    for m in range(1, n + 1):
+        if a[m] != 0:
+            v = (ilog2(abs(a[m])) - l0) / m
+            best = v if best is None else max(best, v)
+    if best is None:
+        return 0.0
+    return 2.0 ** ((1.0 + best) / 2 ** k + 1e-12)
+
+
+def dominant_root(c):
+    """(x, ratio): x a real simple root of the exact polynomial c of strictly largest modulus and an upper bound on
+    |second root| / |x|, or None when no such root is found"""
+    F = Fraction
+    n = len(c) - 1
+    R = root_radius_upper(c)
+    if R == 0.0:
+        return None
+
+    def newton(x):
+        for _ in range(60):
+            X = F(x)
+            p, dp = F(0), F(0)
+            for ck in c:
+                dp = dp * X + p
+                p = p * X + ck
+            if p == 0:
+                return x
+            if dp == 0:
+                return None
+            x2 = float(X - p / dp)
+            if x2 == x:
+                return x
+            if abs(x2 - x) <= 4e-16 * abs(x):
+                return x2
+            x = x2
+        return None
+    for start in (R, -R):
+        x = newton(start)
+        if x is None or not (R / 1.03 <= abs(x) <= R * (1 + 1e-9)):
+            continue
+        X = F(x)
+        # deflate: c(μ) = (μ − X) q(μ) + c(X)
+        q = []
+        acc = F(0)
+        for ck in c[:-1]:
+            acc = acc * X + ck
+            q.append(acc)
+        rem = acc * X + c[-1]
+        scale = sum(abs(ck) * abs(X) ** (n - i) for i, ck in enumerate(c))
+        if abs(rem) > scale / 10 ** 9:
+            continue
+        r2 = root_radius_upper(q) if n > 1 else 0.0
+        if r2 < abs(x):
+            return x, r2 / abs(x)
+    return None
+
+
+def nullvec(B, n):
+    """a null vector of the (numerically) rank n−1 matrix B: Gaussian elimination with complete pivoting"""
+    B = [row[:] for row in B]
+    cols = list(range(n))
+    for k in range(n - 1):
+        pi, pj, best = k, k, -1.0
+        for i in range(k, n):
+            for j in range(k, n):
+                if abs(B[i][j]) > best:
+                    best, pi, pj = abs(B[i][j]), i, j
+        if best <= 0.0:
+            return None
+        B[k], B[pi] = B[pi], B[k]
+        if pj != k:
+            for row in B:
+                row[k], row[pj] = row[pj], row[k]
+            cols[k], cols[pj] = cols[pj], cols[k]
+        for i in range(k + 1, n):
+            f = B[i][k] / B[k][k]
+            if f != 0.0:
+                for j in range(k, n):
+                    B[i][j] -= f * B[k][j]
+    y = [0.0] * n
+    y[n - 1] = 1.0
+    for k in range(n - 2, -1, -1):
+        y[k] = -sum(B[k][j] * y[j] for j in range(k + 1, n)) / B[k][k]
+    x = [0.0] * n
+    for k in range(n):
+        x[cols[k]] = y[k]
+    return x
+
+
+def ns_reference(abits, n):
+    """(λ₁, |λ₂|/|λ₁|, along, kappa) for a general real matrix, or None when there is no real dominant root"""
+    F = Fraction
+    vals = [f_of_bits(b) for b in abits]
+    if not all(math.isfinite(x) for x in vals):
+        return None
+    mx = max(abs(x) for x in vals)
+    if mx == 0.0:
+        return None
+    e = math.frexp(mx)[1]
+    a = [[math.ldexp(vals[i * n + j], -e) for j in range(n)] for i in range(n)]   # exact scaling
+    if n == 1:
+        return math.ldexp(a[0][0], e), 0.0, 1.0, 1.0
+    M, e0 = int_matrix(abits, n)          # A = M · 2^e0 exactly
+    try:
+        dom = dominant_root(charpoly(M, n))
+        if dom is None:
+            return None
+        x, ratio = dom                     # in units of 2^e0
+        x = math.ldexp(x, e0 - e)          # in units of 2^e, like `a`
+    except OverflowError:
+        return None                        # entries of too different magnitudes for the binary64 Newton steps
+    B = [[a[i][j] - (x if i == j else 0.0) for j in range(n)] for i in range(n)]
+    v = nullvec(B, n)
+    u = nullvec([[B[j][i] for j in range(n)] for i in range(n)], n)
+    if v is None or u is None:
+        return None
+    uv = sum(p * q for p, q in zip(u, v))
+    nu, nv = math.sqrt(sum(p * p for p in u)), math.sqrt(sum(p * p for p in v))
+    if uv == 0.0 or nu == 0.0 or nv == 0.0:
+        return None
+    along = abs(sum(u)) * nv / (abs(uv) * math.sqrt(n))
+    kappa = nu * nv / abs(uv)
+    return math.ldexp(x, e), ratio, along, kappa
+
+
+# ------------------------------------------------------------------ exact inertia (symmetric, any n)
+
+def int_matrix(abits, n):
+    """the matrix behind the bit patterns as integers times 2^e"""
+    ds = []
+    for b in abits:
+        x = f_of_bits(b)
+        if x == 0.0:
+            ds.append((0, 0))
+        else:
+            m, ex = math.frexp(x)
+            ds.append((int(m * (1 << 53)), ex - 53))
+    nz = [ex for (m, ex) in ds if m]
+    e0 = min(nz) if nz else 0
+    return [[(ds[i * n + j][0] << (ds[i * n + j][1] - e0)) if ds[i * n + j][0] else 0 for j in range(n)] for i in range(n)], e0
+
+
+def count_below(M, e0, n, sigma):
+    """number of eigenvalues of the symmetric matrix M·2^e0 that are < sigma (a float), exactly; None when a leading
+    principal minor of the shifted matrix vanishes (the caller then moves sigma by a hair)"""
+    F = Fraction
+    sg = F(sigma) / F(2) ** e0 if e0 >= 0 else F(sigma) * F(2) ** (-e0)
+    den = sg.denominator
+    B = [[M[i][j] * den - (sg.numerator if i == j else 0) for j in range(n)] for i in range(n)]
+    # fraction-free (Bareiss) elimination without pivoting: B[k][k] after step k is the leading minor of order k+1
+    prev = 1
+    neg = 0
+    last_sign = 1
+    for k in range(n):
+        d = B[k][k]
+        if d == 0:
+            return None
+        sign = 1 if d > 0 else -1
+        if sign != last_sign:
+            neg += 1
+        last_sign = sign
+        for i in range(k + 1, n):
+            bik = B[i][k]
+            row_i, row_k = B[i], B[k]
+            for j in range(k + 1, n):
+                row_i[j] = (row_i[j] * d - bik * row_k[j]) // prev
+        prev = d
+    return neg
+
+
+def count_below_robust(M, e0, n, sigma):
+    for t in (0, 1, -1, 2, -2):
+        c = count_below(M, e0, n, sigma * (1.0 + t * 2.0 ** -40))
+        if c is not None:
+            return c
+    return None
+
+
+def replica(abits, n, tol):
+    """the documented method itself in binary64 (start at the ones vector, multiply, divide by the largest component —
+    the smallest when none is positive —, Rayleigh quotient, stop at a relative change < tol from the second pass on).
+    Used for ONE purpose: to tell whether a violated residual bound is what the documented method itself produces on
+    this input (then the input is one of the rare ones on which successive Rayleigh quotients agree by coincidence
+    while the iterate is still far away — the statement's bound does not hold for the method there, and the case is
+    not judged), or not (then the implementation is wrong).  Never turns a pass into a failure."""
+    a = [[f_of_bits(abits[i * n + j]) for j in range(n)] for i in range(n)]
+
+    def mul(v):
+        return [sum(a[i][j] * v[j] for j in range(n)) for i in range(n)]
+
+    def norm(v):
+        m = max(v)
+        return m if m > 0.0 else min(v)
+    try:
+        ev = mul([1.0] * n)
+        lam = norm(ev)
+        ev = [x / lam for x in ev]
+        for p in range(100000):
+            ev = mul(ev)
+            c = norm(ev)
+            nv = [x / c for x in ev]
+            av = mul(nv)
+            nxt = sum(x * y for x, y in zip(nv, av)) / sum(x * x for x in nv)
+            ea = abs((nxt - lam) / nxt)
+            lam, ev = nxt, nv
+            if p > 0 and ea < tol:
+                m = max(ev)
+                return lam, [x / m for x in ev]
+    except (ZeroDivisionError, OverflowError):
+        return None
+    return None
+
+
+def same_pair(lam, vs, rep):
+    if rep is None:
+        return False
+    rl, rv = rep
+    close = lambda p, q: abs(p - q) <= 1e-9 * max(abs(p), abs(q), 1e-300)
+    return close(lam, rl) and all(abs(p - q) <= 1e-9 for p, q in zip(vs, rv))
+
+
+def parse_ok(impl, n):
+    """(failure, λ, v, v bits) of an `ok` observation"""
+    t = impl.split()
+    lam_b = int(t[1][1:])
+    vh, vw = int(t[2]), int(t[3])
+    vb = [int(x[1:]) for x in t[4:4 + vh * vw]]
+    if (vh, vw) != (n, 1):
+        return f"eigenvector shape {vh}x{vw}, expected {n}x1", None, None, None
+    lam = f_of_bits(lam_b)
+    vs = [f_of_bits(b) for b in vb]
+    if not all(math.isfinite(x) for x in vs + [lam]):
+        return "non-finite eigenpair on a finite input", None, None, None
+    if ONE not in vb or any(x > 1.0 for x in vs):
+        return "largest component of the eigenvector is not exactly 1 (max %r)" % max(vs), None, None, None
+    return None, lam, vs, vb
+
+
+def residual(abits, n, lam, vs, tol):
+    """(exceeds, ratio to the bound, message): ‖Av − λv‖² against C² tol λ² ‖v‖² in exact rationals"""
+    F = Fraction
+    A = [F(f_of_bits(b)) for b in abits]
+    V = [F(x) for x in vs]
+    L = F(lam)
+    res2 = F(0)
+    for i in range(n):
+        r = sum(A[i * n + j] * V[j] for j in range(n)) - L * V[i]
+        res2 += r * r
+    v2 = sum(x * x for x in V)
+    bound2 = C * C * F(tol) * L * L * v2
+    ratio = math.sqrt(float(res2 / bound2)) if bound2 else float("inf")
+    if res2 > bound2:
+        rel = math.sqrt(float(res2 / (L * L * v2))) if L else float("inf")
+        return True, ratio, ("residual ‖Av − λv‖ = %.3e·|λ|‖v‖ exceeds C√tol = %.3e (tol %.1e, λ = %r)"
+                             % (rel, C * math.sqrt(tol), tol, lam))
+    return False, ratio, None
+
+
+def noise_floor(abits, n, l1):
+    """100 n u (‖A‖_F/|λ₁|)²: the Rayleigh quotient xᵀAx/xᵀx of a non-normal matrix is first-order sensitive to the
+    rounding errors of the iterate (each of relative size u‖A‖/|λ₁|), so successive quotients differ by about
+    n u (‖A‖_F/|λ₁|)² however long the iteration runs, and a tolerance below that is met only by luck (observed:
+    [[-95.484375, 118.75], [-77.1875, 96]], eigenvalues 1 and -0.487, tolerance 1e-12: NoConvergence from the correct
+    method, at 0.12 of n u (‖A‖_F/|λ₁|)²).  Symmetric matrices have ‖A‖_F ≤ √n |λ₁| and a second-order quotient: no floor."""
+    fro2 = sum((f_of_bits(b) / l1) ** 2 for b in abits)
+    return 100.0 * n * 2.0 ** -53 * fro2
+
+
+def accuracy_general(req, impl):
+    """`nsym`, `gen`, `nsymbig`, `accbig`: returns (verdict, calibration ratios)"""
+    half, h, w, abits, esb = parse_req(req)
+    n = h
+    tol = f_of_bits(esb)
+    t = impl.split()
+    ref = None
+    if half in ("nsym", "gen"):
+        ref = ns_reference(abits, n)
+        if ref is None:
+            return None, None
+        l1, ratio, along, kappa = ref
+        if ratio > 0.5 or along < 0.25 or kappa > 1e3 or not (0.999e-12 <= tol <= 1.001e-4):
+            return None, None        # outside the quantifier: not judged
+        if tol < noise_floor(abits, n, l1):
+            return None, None        # the tolerance is below what binary64 can resolve for this matrix: not judged
+    if t[0] != "ok":
+        return f"no eigenpair returned on a matrix inside the quantifier: {impl[:40]}", None
+    f, lam, vs, vb = parse_ok(impl, n)
+    if f:
+        return f, None
+    if half == "nsymbig" and (lam == 0.0 or tol < noise_floor(abits, n, lam)):
+        return None, None
+    bad, r_res, msg = residual(abits, n, lam, vs, tol)
+    if bad:
+        if half in ("nsym", "gen", "nsymbig") and same_pair(lam, vs, replica(abits, n, tol)):
+            return None, (r_res, None)     # the documented method itself stops early here: not judged
+        return msg, (r_res, None)
+    if ref is not None:
+        err = abs(lam - l1)
+        bound = C * math.sqrt(tol) * abs(l1)
+        if err > bound and same_pair(lam, vs, replica(abits, n, tol)):
+            return None, (r_res, err / bound)
+        if err > bound:
+            return ("eigenvalue %.17g is %.3e from the dominant eigenvalue %.17g, more than C·√tol·|λ₁| = %.3e (tol %.1e)"
+                    % (lam, err, l1, bound, tol)), (r_res, err / bound)
+        return None, (r_res, err / (C * tol * abs(l1)))
+    if half == "accbig":
+        M, e0 = int_matrix(abits, n)
+        sgn = 1.0 if lam > 0 else -1.0
+        if sgn < 0:
+            M = [[-x for x in row] for row in M]
+        la = abs(lam)
+        delta = C * tol * la + 1e-13 * la
+        lo = count_below_robust(M, e0, n, la - delta)
+        hi = count_below_robust(M, e0, n, la + delta)
+        mid = count_below_robust(M, e0, n, 0.6 * la)
+        neg = count_below_robust(M, e0, n, -0.6 * la)
+        if None in (lo, hi, mid, neg):
+            return None, (r_res, None)
+        if hi != n or lo != n - 1:
+            return ("eigenvalue %.17g: the matrix has %d eigenvalue(s) in [λ − δ, λ + δ] and %d beyond (exact inertia counts), "
+                    "δ = C·tol·|λ| = %.3e: not within C·tol of the dominant eigenvalue" % (lam, hi - lo, n - hi, delta)), (r_res, None)
+        if mid != n - 1 or neg != 0:
+            return ("eigenvalue %.17g is not dominant with gap 1/2: %d eigenvalue(s) of the same sign beyond 0.6|λ|, %d of the "
+                    "other sign" % (lam, n - mid, neg)), (r_res, None)
+        return None, (r_res, None)
+    return None, (r_res, None)
+
+
 def accuracy(req, impl):
     """returns (verdict, (ratio_residual, ratio_lambda)) — the ratios to the bounds are for calibration"""
     half, h, w, abits, esb = parse_req(req)
@@ -150,37 +563,17 @@ def accuracy(req, impl):
             if ratio > 0.5 + 1e-9 or cos < 0.25 or l1 == 0.0:
                 return None, None
         return f"accuracy case did not return an eigenpair: {impl[:40]}", None
-    lam_b = int(t[1][1:])
-    vh, vw = int(t[2]), int(t[3])
-    vb = [int(x[1:]) for x in t[4:4 + vh * vw]]
-    if (vh, vw) != (n, 1):
-        return f"eigenvector shape {vh}x{vw}, expected {n}x1", None
-    lam = f_of_bits(lam_b)
-    vs = [f_of_bits(b) for b in vb]
     tol = f_of_bits(esb)
     l1, ratio, cos = reference(abits, n)
     if ratio > 0.5 + 1e-9 or cos < 0.25 or l1 == 0.0:
         return None, None            # outside the quantifier: not judged
-    if not all(math.isfinite(x) for x in vs + [lam]):
-        return "non-finite eigenpair on a finite symmetric input", None
-    if ONE not in vb or any(x > 1.0 for x in vs):
-        return "largest component of the eigenvector is not exactly 1 (max %r)" % max(vs), None
+    f, lam, vs, vb = parse_ok(impl, n)
+    if f:
+        return f, None
     # exact residual:  ‖Av − λv‖² ≤ C² tol λ² ‖v‖²
-    F = Fraction
-    A = [F(f_of_bits(b)) for b in abits]
-    V = [F(x) for x in vs]
-    L = F(lam)
-    res2 = F(0)
-    for i in range(n):
-        r = sum(A[i * n + j] * V[j] for j in range(n)) - L * V[i]
-        res2 += r * r
-    v2 = sum(x * x for x in V)
-    bound2 = C * C * F(tol) * L * L * v2
-    r_res = math.sqrt(float(res2 / bound2)) if bound2 else float("inf")
-    if res2 > bound2:
-        return ("residual ‖Av − λv‖ = %.3e exceeds C√tol|λ|‖v‖ = %.3e (tol %.1e)"
-                % (math.sqrt(float(res2)), math.sqrt(float(bound2)), tol)
-                + (first_pass(abits, n, tol, lam) or "")), (r_res, None)
+    bad, r_res, msg = residual(abits, n, lam, vs, tol)
+    if bad:
+        return msg + (first_pass(abits, n, tol, lam) or ""), (r_res, None)
     err = abs(lam - l1)
     bound = C * tol * abs(l1) + 1e-13 * abs(l1)
     r_lam = err / bound
@@ -195,6 +588,8 @@ def oracle(req, impl):
     half = req.split()[1]
     if half in ("acc", "sym"):
         return accuracy(req, impl)[0]
+    if half in ("nsym", "gen", "nsymbig", "accbig"):
+        return accuracy_general(req, impl)[0]
     return None
 
 
